@@ -44,6 +44,20 @@ CHECKS = {
         "enumerated (the property does not settle them). Conditions only use labels defined earlier.",
    technique="TLA+ reference + implementation-shaped machine model-checked by TLC; TLC-enumerated programs "
              "replayed into the real assembler; TLC trace acceptor with three-way verdict"),
+ "C02": dict(
+   category="model_checking",
+   text="TwoPass.tla models the two-pass protocol (location counter, symbol table with scopes and lock, the "
+        "pass-1 'operand unknown' flag kept at the instruction's address) with one action per statement and "
+        "pass. TLC proves LabelStable for every program of up to 6 statements without scopes (1.3M states) and "
+        "exhibits the scope-shadowing drift as a witness. TLC-generated programs (BFS + simulation) are then "
+        "assembled by the real code on 8 carriers with a variable-length instruction; every label is followed "
+        "by `.dc32 $, L, marker`, so the image records the pass-2 location and the pass-1 value of each label; "
+        "TLC classifies each run against the machine's prediction.",
+   design_ref="DESIGN.md 4 C02",
+   note="Hook-free observation; trusted: renderer/probe decoder in nv/props/c02.py. Programs with overlapping "
+        ".org are not generated. Size rules per carrier are used only to attribute the known scope finding.",
+   technique="TLA+ two-pass machine model-checked by TLC (LabelStable); TLC-generated programs replayed "
+             "into the real assembler with self-describing label probes; TLC trace acceptor"),
 }
 
 NOT_YET = "machinery for this property is not built yet in this revision (planned in DESIGN.md section 8)"
